@@ -47,6 +47,20 @@ def lifecycle_monitor(case, outs, ctx, crun_tokens=None):
         if k == "it" and "update" not in evs:
             ctx.failure("update-missing", "an iteration ran without the handler's update event", {"case": case, "at": at})
             return
+        # the handler's script: the j-th handler event of the iteration consumed the j-th act
+        acts = []
+        for x in op.split():
+            if x.startswith("acts="):
+                acts = x[5:].split(",") if x[5:] != "-" else []
+        kicked = set()
+        j = 0
+        for e in evs:
+            p = e.split(":")
+            if p[0] in ("connect", "msg", "update", "disc"):
+                a = acts[j] if j < len(acts) else "ok"
+                j += 1
+                if p[0] in ("connect", "msg") and a.startswith("disc"):
+                    kicked.add(int(p[1]))
         for e in evs:
             p = e.split(":")
             if p[0] == "connect":
@@ -68,6 +82,11 @@ def lifecycle_monitor(case, outs, ctx, crun_tokens=None):
                                 {"case": case, "at": at})
                     return
                 state[cid] = "done"
+        undone = [cid for cid in kicked if state.get(cid) != "done"]
+        if k == "it" and undone:
+            ctx.failure("server-initiated-disconnect-undone", "the handler called client.disconnect() on connection(s) %s in this iteration but "
+                        "the sweep of the same iteration did not report their disconnect" % undone, {"case": case, "at": at})
+            return
         if " conns=" in o:
             pools = o.split(" conns=")[1]
             conns = pools.split(" temps=")[0].strip("[]")
